@@ -152,3 +152,21 @@ func TestFindingF9_CCFBForeignFMT(t *testing.T) {
 		t.Errorf("CCFB decoder accepted an RRR packet")
 	}
 }
+
+// F14 (open): XR report blocks whose elements are not multiples of four bytes.
+func TestFindingF14_XRUnalignedBlocks(t *testing.T) {
+	for name, rb := range map[string]ReportBlock{
+		"LossRLE 1 chunk":      &LossRLEReportBlock{XRHeader: XRHeader{BlockType: LossRLEReportBlockType}, Chunks: []Chunk{0x4006}},
+		"DuplicateRLE 3 chunk": &DuplicateRLEReportBlock{XRHeader: XRHeader{BlockType: DuplicateRLEReportBlockType}, Chunks: []Chunk{1, 2, 3}},
+		"Unknown 5 bytes":      &UnknownReportBlock{XRHeader: XRHeader{BlockType: 99}, Bytes: []byte{1, 2, 3, 4, 5}},
+	} {
+		x := ExtendedReport{SenderSSRC: 1, Reports: []ReportBlock{rb}}
+		b, err := x.Marshal()
+		if err != nil {
+			continue // rejecting the value would be fine
+		}
+		if len(b)%4 != 0 || int(b[2])<<8|int(b[3]) != len(b)/4-1 {
+			t.Errorf("%s: Marshal succeeded with %d bytes (not a multiple of 4), header length field %d", name, len(b), int(b[2])<<8|int(b[3]))
+		}
+	}
+}
